@@ -512,6 +512,22 @@ def finXs : List NEv → List Bool
   | .finX b :: r => b :: finXs r
   | _ :: r => finXs r
 
+/-- The caller's completion callbacks are optional: `App.Start` / `App.Stop` (and `StopNode`) invoke them under
+`if finish != nil`, *after* the state has been set, so an absent callback takes nothing else away.  `hasS` / `hasX`:
+a start- / stop-completion callback was supplied. -/
+def dropAbsent (hasS hasX : Bool) : List NEv → List NEv
+  | [] => []
+  | .fin b :: r => if hasS then .fin b :: dropAbsent hasS hasX r else dropAbsent hasS hasX r
+  | .finX b :: r => if hasX then .finX b :: dropAbsent hasS hasX r else dropAbsent hasS hasX r
+  | e :: r => e :: dropAbsent hasS hasX r
+
+/-- a plain `baseapp.App` in the node's vocabulary: the caller's callback is invoked by the closure that App.Start /
+App.Stop hand to the ModList as `finish`, after `setState` -/
+def plainLog : List AEv → List NEv
+  | [] => []
+  | .ev ph (.finish b) :: r => .app (.ev ph (.finish b)) :: (if ph then NEv.fin b else NEv.finX b) :: plainLog r
+  | e :: r => .app e :: plainLog r
+
 /-- the App-level operation a node-level operation comes down to (once StartNode is accepted) -/
 def NOp.toAOp : NOp → AOp
   | .startNode _ _ => .start
